@@ -281,7 +281,8 @@ Definition rsa_size_gate (r : jwe_alg_row) (n : native) : res unit :=
   end.
 
 (* other.exchange_derive_key : self = the party holding private material.
-   ECKey:  pubkey = key.get_op_key("deriveKey");
+   ECKey:  if not isinstance(key, ECKey): raise InvalidExchangeKeyError
+           pubkey = key.get_op_key("deriveKey");
            if self.private_key and self.curve_name == key.curve_name: ok
            else InvalidExchangeKeyError
    OKPKey: isinstance(self.private_key, X25519PrivateKey) and isinstance(pubkey, X25519PublicKey)
@@ -290,6 +291,7 @@ Definition rsa_size_gate (r : jwe_alg_row) (n : native) : res unit :=
 Definition exchange_derive_key (self other : key) : res unit :=
   match k_kty self with
   | KEc =>
+      do _ <- (match k_kty other with KEc => Ok tt | _ => Err (EJose InvalidExchangeKeyError) end);
       do _ <- get_op_key "deriveKey" other;
       if k_priv self then
         do c <- curve_name other;
@@ -408,8 +410,9 @@ Definition jwe_decrypt_alg (r : jwe_alg_row) (enc : jwe_enc_row) (k : key)
   else if String.eqb f "ECDH1PU" then
     do _ <- check_enc_1pu r enc;
     match sender with
-    | None => Err EAssert
+    | None => Err (EJose InvalidExchangeKeyError)   (* "A sender key is required" *)
     | Some s =>
+        do _ <- jwe_check_key_type r k;
         do ek <- import_epk k e;
         do _ <- exchange_derive_key k s;
         exchange_derive_key k ek
